@@ -93,3 +93,32 @@ func AfterFunc(d time.Duration, f func()) *Timer {
 	})
 	return t
 }
+
+// Clock: there is no passage of time inside an execution except what the
+// harness decides. Now is the real time plus an offset that only Advance moves
+// (per execution), so code that compares time stamps sees exactly the delays a
+// history prescribes ("tick" operations) and nothing else.
+func Now() time.Time {
+	s := cur
+	if s == nil {
+		return time.Now()
+	}
+	if s.clockBase.IsZero() {
+		s.clockBase = time.Now()
+	}
+	return s.clockBase.Add(s.clockOffset)
+}
+
+func Since(t time.Time) time.Duration { return Now().Sub(t) }
+func Until(t time.Time) time.Duration { return t.Sub(Now()) }
+
+// Advance moves the execution's clock forward (a scheduling point).
+func Advance(d time.Duration) {
+	Step("tick " + d.String())
+	if s := cur; s != nil {
+		if s.clockBase.IsZero() {
+			s.clockBase = time.Now()
+		}
+		s.clockOffset += d
+	}
+}
